@@ -9,6 +9,18 @@ type PropSpec struct {
 }
 
 var properties = map[string]PropSpec{
+	"C11": {
+		Level: "proof",
+		Explanation: "Effect analysis over every exported query method of Stack and Condition (the names in the statement, every Is.../Can... method and the plain getters; enumerated from go/types on each run): the transitive write set over all in-package callees must be empty on every non-fresh object - no store, append into shared backing, map update, global write or lock call (R-PURE). Returned slices/maps must be rooted at an allocation made during the call (R-FRESH; Auxiliary/Logger exempt by the statement). No source of nondeterminism (math/rand, time.Now, order-sensitive map iteration) is reachable (R-NONDET). With an empty write set, concurrent queries cannot race: a data race needs a write.",
+		NotDecided: "effects of user closures and user String() methods invoked by queries (USER edges, listed); internal synchronisation of fmt/reflect; races between a query and a concurrent mutator (C10)",
+		Trusted: []string{"root tracing of effects.go", "purity table for the standard library functions used (strings, strconv, fmt.Sprintf, reflect read accessors, errors.New)"},
+		Run: func(c *Ctx) {
+			c.ruleNoUnsafe()
+			c.rulePure()
+			c.rep.floor("R-PURE", 55)
+			c.rep.floor("R-FRESH", 4)
+		},
+	},
 	"C09": {
 		Level: "proof",
 		Explanation: "Effect analysis over the type-checked SSA of every exported Stack/Condition method (enumerated from go/types on each run): every store, append, map update or lock call whose target is rooted at the receiver - directly or through any chain of in-package callees - must be reached only through the false edge of getState(recv, ronly) (rule R-RO, path-sensitive DNF facts; setState's `|| cf == ronly` arm is followed to the constant each caller passes). Exemptions are exactly those of the statement (SetReadOnly/ReadOnly: the option word; SetErr: the error field; Condition.Init: the handle; Marshal: the handle of an uninitialised receiver). R-MASK/R-FLAGS prove that switching the read-only bit touches no other bit; R-RO-FREE proves Free returns a non-nil error when the flag is set.",
